@@ -20,7 +20,7 @@ ASSUMPTIONS = ["oracles/refvalue.py (split model: R = inputs - fixed - fee, R < 
                "fee is an integer >= 0 (the deprecated fee='standard' is not explored)"]
 CONFIGURATIONS = ["BTC network (network.tx_utils.create_tx, network.tx)", "spendables passed as objects, as_text-style text (4 and 7 fields), "
                   "as_dict-style dicts", "payables as bare address, (address, 0), (address, amount)"]
-UNEXPLORED = ["fee='standard'", "non-P2PKH payable addresses", "other networks' Tx classes"]
+UNEXPLORED = ["the amount of fee='standard' (the library's own estimate; only split and conservation are judged)", "non-P2PKH payable addresses", "other networks' Tx classes"]
 
 Tx = BTC.tx
 MAX = refvalue.MAX_MONEY
